@@ -481,10 +481,26 @@ func (r *patchRunner) Apply(filename string, f *ast.File) (fout *ast.File, comme
 
 			snap = snap.Diff(fout, cl)
 			cleanupFilePos(r.fset.File(fout.Pos()), cl, fout.Comments)
+			fout.Comments = dropEmptyComments(fout.Comments)
 		}
 	}
 
 	return fout, comments, matched
+}
+
+// dropEmptyComments returns the comment groups that still hold comments.
+// cleanupFilePos empties the groups that lay inside removed code; they must
+// not stay in the file, because code that visits file.Comments (for example
+// astutil.AddNamedImport, when a later change adds an import) asks every group
+// for its position, which panics for an empty group.
+func dropEmptyComments(groups []*ast.CommentGroup) []*ast.CommentGroup {
+	kept := make([]*ast.CommentGroup, 0, len(groups))
+	for _, cg := range groups {
+		if len(cg.List) > 0 {
+			kept = append(kept, cg)
+		}
+	}
+	return kept
 }
 
 func cleanupFilePos(tfile *token.File, cl engine.Changelog, comments []*ast.CommentGroup) {
